@@ -17,9 +17,15 @@
 //! "Bytes that matter" for a signed asset = positions whose single-byte alteration makes a clean read not Valid
 //! (computed exhaustively with plain cursors, on demand); for the source of `sign` = every byte.
 //!
-//! Mutants caught (tools/mutant_run.sh G <diff> C35 quick):
-//!   C35-read-exact-to-read.diff   a handler helper uses `read` where it needs `read_exact`  -> VIOLATION (short-transfer/chunking changes result)
-//!   C35-swallow-write-error.diff  an output write error is ignored                            -> VIOLATION (ok-despite… / sign-ok-but-output-differs)
+//! Mutants caught (mutant_run, quick tier):
+//!   C35-read-exact-to-read.diff   ReaderUtils::read_to_vec uses one `read` where it needs to read exactly n bytes
+//!       -> VIOLATION  new keys `chunking-changes-result op=read got=Err(JumbfParseError) fmt=png|tiff|mp4|heic …`
+//! Findings of this check on the unchanged tree (see the final report of group G): format sniffing with a single read
+//! (`chunking-changes-result op=read-detect got=Err(UnsupportedType)`), ID3 header read with a single read (mp3/flac:
+//! `… op=read got=Err(JumbfNotFound)`, `… op=ingredient got=Ok(no-manifest)`, `… op=sign got=Ok(Valid)`), I/O errors during
+//! hard-binding verification reported as `assertion.dataHash.mismatch` / `assertion.bmffHash.mismatch`
+//! (`io-error-hidden-as-validation-failure …`), and I/O errors while loading an ingredient's manifest silently
+//! producing an ingredient without manifest (`io-error-changes-result op=ingredient state=no-manifest`).
 
 use c2pa::{Builder, Reader};
 use kit::{
@@ -161,7 +167,7 @@ fn signer() -> &'static (dyn c2pa::Signer + Send + Sync) {
 
 fn reader_obs(r: c2pa::Result<Reader>, masked: bool) -> (String, String, String, Vec<String>) {
     match r {
-        Ok(rd) => ("Ok".into(), if masked { gutil::canon_masked(&rd) } else { canon::canon_string(&rd) }, sdk::state_name(rd.validation_state()).into(), canon::codes(&rd).into_iter().filter(|c| c.contains("/failure")).collect()),
+        Ok(rd) => ("Ok".into(), if masked { gutil::canon2(&rd, true) } else { gutil::canon2(&rd, false) }, sdk::state_name(rd.validation_state()).into(), canon::codes(&rd).into_iter().filter(|c| c.contains("/failure")).collect()),
         Err(e) => (gutil::err_class(&e), format!("{e:?}").chars().take(200).collect(), "-".into(), vec![]),
     }
 }
@@ -219,7 +225,7 @@ fn execute(op: &Op, sc: &Script) -> Obs {
                         codes.sort();
                         codes.dedup();
                         let state = if ing.active_manifest().is_none() { "no-manifest" } else { ing.validation_results().map(|v| sdk::state_name(v.validation_state())).unwrap_or("no-results") };
-                        ("Ok".to_string(), gutil::canon_value(&*ing), state.to_string(), codes)
+                        ("Ok".to_string(), gutil::canon2_value(&*ing), state.to_string(), codes)
                     }
                     Err(e) => (gutil::err_class(&e), format!("{e:?}").chars().take(200).collect(), "-".into(), vec![]),
                 }
@@ -353,18 +359,18 @@ fn judge(run: &Run, op: &Op, base: &Obs, sc: &Script, o: &Obs) -> bool {
             format!("I/O error hidden as a validation failure: {}: {} (failing call kind '{}'); result Ok(Invalid) with new failure code(s) {:?} instead of Err; {delivery}", op.name(), sc.describe(), call_kind(o, sc), new_codes),
             case,
         );
+    } else if !same {
+        run.outcome("I/O error changes an Ok result");
+        LIM.violation(run, 
+            format!("io-error-changes-result op={opn} state={} fmt={fmt}", o.state),
+            format!("{}: {}; result Ok({}) differs from the undisturbed one [{}]; {delivery}", op.name(), sc.describe(), o.state, first_diff(&base.detail, &o.detail)),
+            case,
+        );
     } else if !undelivered.is_empty() {
         run.outcome("Ok(not Invalid) despite undelivered data");
         LIM.violation(run, 
             format!("valid-despite-undelivered-data op={opn} state={} fmt={fmt}", o.state),
             format!("{}: {}; the operation returns Ok({}) although {delivery}", op.name(), sc.describe(), o.state),
-            case,
-        );
-    } else if !same {
-        run.outcome("I/O error changes an Ok result");
-        LIM.violation(run, 
-            format!("io-error-changes-result op={opn} state={} fmt={fmt}", o.state),
-            format!("{}: {}; result Ok({}) differs from the undisturbed one [{}]", op.name(), sc.describe(), o.state, first_diff(&base.detail, &o.detail)),
             case,
         );
     } else {
